@@ -414,7 +414,7 @@ func (c *GroupCoordinator) OffsetFetch(ctx context.Context, req *kmsg.OffsetFetc
 		topicResp.Topic = topic.Topic
 		topicResp.Partitions = make([]kmsg.OffsetFetchResponseTopicPartition, 0, len(topic.Partitions))
 		for _, partID := range topic.Partitions {
-			offset, metadataStr, err := c.store.FetchConsumerOffset(ctx, req.Group, topic.Topic, partID)
+			offset, metadataStr, err := c.fetchCommittedOffset(ctx, req.Group, topic.Topic, partID)
 			code := int16(protocol.NONE)
 			if err != nil {
 				code = protocol.UNKNOWN_SERVER_ERROR
@@ -430,6 +430,21 @@ func (c *GroupCoordinator) OffsetFetch(ctx context.Context, req *kmsg.OffsetFetc
 		resp.Topics = append(resp.Topics, topicResp)
 	}
 	return resp, nil
+}
+
+// fetchCommittedOffset reads a committed offset for OffsetFetch. The Kafka
+// protocol reports a partition without a commit as offset -1, so that clients
+// fall back to auto.offset.reset instead of resuming at offset 0.
+func (c *GroupCoordinator) fetchCommittedOffset(ctx context.Context, group, topic string, partition int32) (int64, string, error) {
+	lookup, ok := c.store.(metadata.ConsumerOffsetLookup)
+	if !ok {
+		return c.store.FetchConsumerOffset(ctx, group, topic, partition)
+	}
+	offset, metadataStr, found, err := lookup.LookupConsumerOffset(ctx, group, topic, partition)
+	if err == nil && !found {
+		return -1, "", nil
+	}
+	return offset, metadataStr, err
 }
 
 func (c *GroupCoordinator) DescribeGroups(ctx context.Context, req *kmsg.DescribeGroupsRequest) (*kmsg.DescribeGroupsResponse, error) {
